@@ -280,6 +280,11 @@ def cases_c17(ctx):
                 hs.append((pre + [RUN(), EDIT("param_type"), RUN(fault=f), RUN()], build))
                 # ... after which the sources are reverted before the recovery run
                 hs.append((pre + [RUN(), EDIT("param_type"), RUN(fault=f), EDIT("param_type", -1), RUN()], build))
+                # the failing run is a *forced* one (flag on the CLI, `force: true` in the file on the build path):
+                # a forced run never reads the record, but must still not leave the old one behind when it fails
+                hs.append((pre + [RUN(), EDIT("param_type"), RUN(forced=True, fault=f), EDIT("param_type", -1), RUN()], build))
+                if tier == "thorough" or f % 2 == 0:
+                    hs.append((pre + [RUN(), RUN(forced=True, fault=f), RUN()], build))
                 if tier == "thorough":
                     hs.append((pre + [RUN(), EDIT("struct_field_type"), RUN(fault=f), EDIT("struct_field_type", -1), RUN(), RUN()], build))
                     hs.append((pre + [RUN(fault=f), RUN(fault=(f + 1) % (nfiles + 1)), RUN()], build))
